@@ -88,8 +88,12 @@ def permuted_revision(ws: dict, seed: int):
 
 
 def in_set(real_bls, node, L: int, limit: int = 20000) -> bool:
-    if node.work() <= limit:
-        return L in set(real_bls)
+    from ..worlds.realcanon import _cheap_for_sut
+    if node.work() <= limit and _cheap_for_sut(node):
+        from ..worlds.realcanon import safe_expand
+        es = safe_expand(real_bls)
+        if es is not None:
+            return L in es
     if not (real_bls.min <= L <= real_bls.max):
         return False
     return all((L % m) in set(real_bls % m) for m in (8, 32, 64))
